@@ -325,7 +325,7 @@ func TestWorker(t *testing.T) {
 			os.Stdout.Write(b)
 		}
 	}
-	startWatchdog(time.Duration(envInt("VERIF_WATCHDOG_S", 45)) * time.Second)
+	startWatchdog(time.Duration(envInt("VERIF_WATCHDOG_S", 120)) * time.Second)
 
 	if rp := os.Getenv("VERIF_REPLAY"); rp != "" {
 		b, err := os.ReadFile(rp)
